@@ -1,9 +1,9 @@
 #!/bin/bash
-# usage: tools/sweep.sh <tier> <seed> [<seed> ...] : every check on the unchanged tree
+# usage: [CHECKS="C03 C04"] tools/sweep.sh <tier> <seed> [<seed> ...] : every (or the listed) check on the unchanged tree
 cd "$(dirname "$(realpath "$0")")/.." || exit 2
 tier=$1; shift
 for sd in "$@"; do
-  for c in C01 C02 C03 C04 C05 C06 C07 C08 C09 C10 C11 C12 C13 C14 C15 C16 C17 C18 C19 C20; do
+  for c in ${CHECKS:-C01 C02 C03 C04 C05 C06 C07 C08 C09 C10 C11 C12 C13 C14 C15 C16 C17 C18 C19 C20}; do
     t0=$(date +%s)
     out=$(VERIF_SEED=$sd VERIF_NOEVIDENCE=1 ./check $c --tier $tier 2>&1); rc=$?
     t1=$(date +%s)
